@@ -632,7 +632,9 @@ def check_path_tokens(facts, out):
                 H.walk(a['body'], v4)
                 for v in vs:
                     kind_letter[v] = letters
-    H.walk(enc['body'], visit_e)
+    for path, h2 in facts.hir.items():
+        if path.startswith('encode::'):
+            H.walk(h2['body'], visit_e)
     out.anchor('KT', 'encoder spline-kind letters', len(kind_letter) >= 4, str(kind_letter))
     for kind, letters in sorted(kind_letter.items()):
         ok = len(letters) == 1 and letter_kind.get(next(iter(letters))) == kind
@@ -646,10 +648,13 @@ def check_path_tokens(facts, out):
     # (b) degree written for BSpline
     ctx_inits = H.binding_inits(enc)
     wrote_degree = False
-    for ev in H.write_events(enc):
-        if ev['kind'] == 'fmt' and ev['pieces'][:1] == [('lit', 'B')] and ev['args']:
-            if 'degree' in repr(ev['args'][0]):
-                wrote_degree = True
+    for path, h2 in facts.hir.items():
+        if not path.startswith('encode::'):
+            continue
+        for ev in H.write_events(h2):
+            if ev['kind'] == 'fmt' and ev['pieces'][:1] == [('lit', 'B')] and ev['args']:
+                if 'degree' in repr(ev['args'][0]):
+                    wrote_degree = True
     out.add('KT-K5', 'encode::add_path_data', 'degree-written', 'src/encode.rs', wrote_degree,
             '' if wrote_degree else 'the B-spline degree the decoder reads is never written', ordinal=False)
     # (c) explicit-segment decision compares whole path types
